@@ -14,7 +14,7 @@ EXTENDS Integers, Sequences, FiniteSets
 Min(S) == CHOOSE x \in S : \A y \in S : x <= y
 Max(S) == CHOOSE x \in S : \A y \in S : y <= x
 RECURSIVE Terms(_)
-Terms(e) == IF e.k = "sym" THEN {e.t}
+Terms(e) == IF e.k = "sym" THEN {e.t} ELSE IF e.k = "twin" THEN {e.t, e.sep - 1}
             ELSE (IF e.k = "list" /\ e.sep > 0 THEN {e.sep - 1} ELSE {}) \cup UNION { Terms(e.sub[i]) : i \in 1..Len(e.sub) }
 RECURSIVE HeadT(_)
 HeadT(e) == IF e.k = "sym" THEN e.t ELSE HeadT(e.sub[1])      \* first terminal of a headed element
@@ -40,6 +40,7 @@ Vanished(e, toks, I) ==
     [] OTHER -> FALSE
 TrailEmpty(e, toks, I) ==
   CASE e.k = "sym" -> FALSE
+    [] e.k = "twin" -> FALSE
     [] e.k = "list" -> I = {}
     [] e.k = "opt" -> I # {} /\ TrailEmpty(e.sub[1], toks, I)
     [] e.k = "arrow" -> TrailEmpty(e.sub[1], toks, I)
@@ -68,6 +69,11 @@ Ev(e, toks, I, nextOff) ==
     [] e.k = "alt" ->
          LET live == { k \in 1..Len(e.sub) : \E i \in I : toks[i][1] \in Terms(e.sub[k]) } IN
          IF live = {} THEN None ELSE LET k == Min(live) IN Ev(e.sub[k], toks, { i \in I : toks[i][1] \in Terms(e.sub[k]) }, nextOff)
+    [] e.k = "twin" ->       \* (x -> A)+ y (x -> B)+ : two lists over the same element, reported as different nodes
+         LET m == Min({ i \in I : toks[i][1] = e.sep - 1 })
+             xs == Sorted({ i \in I : toks[i][1] = e.t })
+             f == [j \in 1..Len(xs) |-> << <<IF xs[j] < m THEN e.name1 ELSE e.name2, toks[xs[j]][2], toks[xs[j]][3]>> >>]
+         IN [now |-> Concat(f, Len(xs)), later |-> <<>>]
     [] e.k = "list" ->
          LET hs == Sorted({ i \in I : toks[i][1] = HeadT(e.sub[1]) })
              It(j) == { i \in I : i >= hs[j] /\ (j = Len(hs) \/ i < hs[j+1]) /\ toks[i][1] \in Terms(e.sub[1]) }
